@@ -153,9 +153,16 @@ Theorem C03_weights_sum_norm : forall (A : Type) (nrm : A -> Q) d M (psi : pstat
 Proof. exact weights_sum_norm. Qed.
 Print Assumptions C03_weights_sum_norm.
 
+(* with shots=None the weights of a measurement sum to the squared norm of the measured state
+   (times the weight of the branch), for ANY branch state: unnormalised preparation, state
+   left by a post-selection, ... -- not to 1 *)
+Theorem C03_measure_branch_weights_sum : forall (A : Type) (nrm : A -> Q) L (b : pbranch A),
+  (sumQ (map (pb_freq A) (measure_branch A nrm L b)) == branch_norm A nrm b * pb_freq A b)%Q.
+Proof. exact measure_branch_weights_sum. Qed.
+Print Assumptions C03_measure_branch_weights_sum.
+
 Theorem C03_exact_weights_sum : forall (A : Type) (nrm : A -> Q) d L (psi : pstate A),
-  positive A nrm psi -> psi <> [] -> Forall (fun m => (m < d)%nat) L ->
-  (sumQ (map (pb_freq A) (measure_seq A nrm [L] (pinitial A d psi))) == 1)%Q.
+  (sumQ (map (pb_freq A) (measure_seq A nrm [L] (pinitial A d psi))) == weight A nrm psi)%Q.
 Proof. exact exact_weights_sum. Qed.
 Print Assumptions C03_exact_weights_sum.
 
@@ -173,6 +180,18 @@ Example C03_nonvacuous_chain :
   map (fun b => (pb_out Qi b, Qred (pb_freq Qi b))) (run_proj 2 psi [[1%nat]; [0%nat]])
   = [([0;1]%nat, 9#25); ([1;0]%nat, 16#25)]%Q
   /\ seq_joint_model_ok 2 psi [1%nat] [0%nat] = true.
+Proof. vm_compute. split; reflexivity. Qed.
+
+(* non-vacuity for unnormalised states: (1/2)|1,0> + (1/2)|0,1> has squared norm 1/2; the
+   weights of measuring mode 0 are 1/4 and 1/4 (not 1/2, 1/2); after post-selecting 0 photons
+   in mode 0 the measurement of mode 1 has the single weight 1/4 *)
+Example C03_nonvacuous_unnormalised :
+  let psi : qstate := [([1;0]%nat, (1#2, 0)); ([0;1]%nat, (1#2, 0))]%Q in
+  map (fun b => (pb_out Qi b, Qred (pb_freq Qi b))) (run_steps 2 psi [PMeasure [0%nat]])
+  = [([1]%nat, 1#4); ([0]%nat, 1#4)]%Q
+  /\ map (fun b => (pb_out Qi b, Qred (pb_freq Qi b)))
+         (run_steps 2 psi [PPost [0%nat] [0%nat]; PMeasure [1%nat]])
+     = [([1]%nat, 1#4)]%Q.
 Proof. vm_compute. split; reflexivity. Qed.
 
 (* refuted on the tree as found (finite witnesses) *)
